@@ -123,7 +123,43 @@ def _const_in_compare(func, varname, op_type):
     return vals[0] if len(vals) == 1 else 0
 
 
-def _counter_guard_const(func):
+_MODULE_CONSTS = {}
+
+
+def _module_int_consts(tree):
+    """{NAME: n} for module-level `NAME = <int literal>` (also annotated) assigned exactly once"""
+    key = id(tree)
+    if key not in _MODULE_CONSTS:
+        seen = {}
+        for st in getattr(tree, "body", []):
+            tgt = val = None
+            if isinstance(st, ast.Assign) and len(st.targets) == 1 and isinstance(st.targets[0], ast.Name):
+                tgt, val = st.targets[0].id, st.value
+            elif isinstance(st, ast.AnnAssign) and isinstance(st.target, ast.Name) and st.value is not None:
+                tgt, val = st.target.id, st.value
+            if tgt is not None:
+                seen.setdefault(tgt, []).append(val)
+        # a name stored anywhere else (global statements, augmented assignment) disqualifies it
+        stores = {}
+        for x in ast.walk(tree):
+            if isinstance(x, ast.Name) and isinstance(x.ctx, ast.Store):
+                stores[x.id] = stores.get(x.id, 0) + 1
+        _MODULE_CONSTS[key] = {k: v[0].value for k, v in seen.items()
+                               if len(v) == 1 and stores.get(k, 0) == 1 and isinstance(v[0], ast.Constant)
+                               and isinstance(v[0].value, int) and not isinstance(v[0].value, bool)}
+    return _MODULE_CONSTS[key]
+
+
+def _int_of(node, tree):
+    """the integer a literal or a once-assigned module-level constant name stands for, else None"""
+    if isinstance(node, ast.Constant) and isinstance(node.value, int) and not isinstance(node.value, bool):
+        return node.value
+    if isinstance(node, ast.Name) and tree is not None:
+        return _module_int_consts(tree).get(node.id)
+    return None
+
+
+def _counter_guard_const(func, tree=None):
     """the integer N of the unique comparison `<name> > N` whose left side is a local that the
     function increments with `+= 1` (the no-progress counter), whatever it is called; else 0"""
     if func is None:
@@ -137,21 +173,22 @@ def _counter_guard_const(func):
     for x in ast.walk(func):
         if (isinstance(x, ast.Compare) and isinstance(x.left, ast.Name) and x.left.id in counters
                 and len(x.ops) == 1 and isinstance(x.ops[0], ast.Gt)
-                and isinstance(x.comparators[0], ast.Constant) and isinstance(x.comparators[0].value, int)):
-            vals.append(x.comparators[0].value)
+                and _int_of(x.comparators[0], tree) is not None):
+            vals.append(_int_of(x.comparators[0], tree))
     return vals[0] if len(vals) == 1 else 0
 
 
-def _range_const_of_for(func, nth=0):
-    """N of the nth `for _ in range(N)` loop of func (document order), else 0"""
+def _range_const_of_for(func, nth=0, tree=None):
+    """N of the nth `for _ in range(N)` loop of func (document order), else 0; N a literal or a
+    once-assigned module-level integer constant"""
     if func is None:
         return 0
     loops = []
     for x in ast.walk(func):
         if isinstance(x, ast.For) and isinstance(x.iter, ast.Call) and _is_name_call(x.iter, "range"):
             a = x.iter.args
-            consts = [y.value for y in a if isinstance(y, ast.Constant) and isinstance(y.value, int)]
-            if len(consts) != len(a):
+            consts = [_int_of(y, tree) for y in a]
+            if any(c is None for c in consts):
                 continue
             # range(N), range(0, N), range(0, N, 1)
             if len(a) == 1:
@@ -179,11 +216,11 @@ def compute():
     facts["extract_g_ctx"] = _guarded_sites(ei, lambda c: _is_name_call(c, "contexts_active_in_frame"), appends)
     facts["extract_g_fill"] = _guarded_sites(ei, lambda c: _is_name_call(c, "fill_context"), appends)
     facts["extract_g_elab"] = _guarded_sites(ei, lambda c: _is_name_call(c, "elaborate_frame"), appends)
-    facts["unwrap_guard"] = _counter_guard_const(ei)
+    facts["unwrap_guard"] = _counter_guard_const(ei, ex)
     # partial operations on the deques outside any try: popleft() must be dominated by a
     # truthiness test of the same deque (while/if) -- count unconditional ones
     fc = _find_def(ex, "fill_context")
-    facts["context_guard"] = _range_const_of_for(fc)
+    facts["context_guard"] = _range_const_of_for(fc, tree=ex)
 
     # ExtractOptions: thread-local storage, push restores in finally
     eo = _find_def(ex, "ExtractOptions")
@@ -260,7 +297,7 @@ def compute():
     facts["trickery_failure_guarded"] = _guarded_sites(
         caf, lambda c: _is_name_call(c, "_contexts_active_by_trickery"), warns)
     l311 = _parse("stackscope/_lowlevel_cpython_311.py")
-    facts["snapshot_retries"] = _range_const_of_for(_find_def(l311, "inspect_frame"))
+    facts["snapshot_retries"] = _range_const_of_for(_find_def(l311, "inspect_frame"), tree=l311)
 
     # formatting markers (C18): (name, unicode literal, ascii literal) for every
     # `x = A if opts.ascii_only else U` assignment in _types.py
